@@ -14,11 +14,14 @@ import (
 func defaultHasher[T comparable]() func(T, uint64) uint64 {
 	var zero T
 
-	if reflect.TypeOf(&zero).Elem().Kind() == reflect.Interface {
+	if rt := reflect.TypeOf(&zero).Elem(); rt.Kind() == reflect.Interface {
+		// Hash the interface value itself with the interface type's hash
+		// function, as the built-in map does: it handles nil interfaces and
+		// pointer-shaped dynamic values, which must be hashed by value and
+		// not through the memory they point to.
+		typ := uintptr((*iface)(unsafe.Pointer(&rt)).word)
 		return func(value T, seed uint64) uint64 {
-			iValue := any(value)
-			i := (*iface)(unsafe.Pointer(&iValue))
-			return runtime_typehash64(i.typ, i.word, seed)
+			return runtime_typehash64(typ, unsafe.Pointer(&value), seed)
 		}
 	} else {
 		var iZero any = zero
